@@ -57,8 +57,9 @@ def run(ctx):
         ctx.cov["histories_queued_behind_nstart"] = ctx.cov.get("histories_queued_behind_nstart", 0) + sum(1 for h in queued if h[0]["a"] == "queue")
         ctx.cov["histories_with_context_deadline"] = ctx.cov.get("histories_with_context_deadline", 0) + sum(1 for h in queued if any(a["a"] == "deadline" for a in h[:2]))
         maximal = direct + queued
-        for h in maximal:
-            stim.append({"t": len(stim) + 1, "maxr": maxr, "at": 2, "steps": h})
+        for k, h in enumerate(maximal):
+            # every third history: the request is a POST whose body reader the application has already read to its end
+            stim.append({"t": len(stim) + 1, "maxr": maxr, "at": 2, "steps": h, "post": k % 3 == 2})
         # the first transmission refused by the network (transient write error), then sweeps over the whole retransmission span
         for ticks in ([3, 5, 7, 9, 13, 17, 33, 65], [3], [65], []):
             stim.append({"t": len(stim) + 1, "maxr": maxr, "at": 2, "steps": [{"a": "wfail", "t": 0}] + [{"a": "tick", "t": t} for t in ticks]})
